@@ -165,7 +165,7 @@ func c09GenStart(s Src) (kind, text string) {
 		if p < 3 {
 			return "DateTime", date[p] + "T"
 		}
-		off := pickOne(s, []string{"", "Z", "+05:30", "-11:00"})
+		off := pickOne(s, []string{"", "Z", "+05:30", "-11:00", "+00:30", "-00:30", "-00:45", "+00:45", "+14:00", "-12:00", genOffset(s), genOffset(s)})
 		return "DateTime", date[2] + "T" + times[p-3] + off
 	}
 	return "Time", times[s.Intn(4)]
